@@ -77,7 +77,7 @@ def main():
         items.append({"id": "h%d" % h, "module": mods[3],
                       "script": [{"op": "instantiate", "binds": {"mem": 0, "table": 0, "globals": []}}] + c05["history"](rng, 3, 12)})
     items += c03["directed"](rng, "quick")
-    items += [i for i in load("c04")["directed"](rng, "quick", {}) if i["id"].startswith(("seg", "icallty", "tab_", "reent"))]
+    items += [i for i in load("c04")["directed"](rng, "quick", {}) if i["id"].startswith(("seg", "icallty", "tab_", "reent"))]        # ("seg" includes the fixed run layouts)
     gst = {}
     for prof, cnt in (("mixed", 36 if tier == "quick" else 240), ("control", 36 if tier == "quick" else 240), ("calls", 24 if tier == "quick" else 160)):
         items += wasmgen.programs(prof, cnt, SEED, args_per_prog=4, stats=gst)
